@@ -56,7 +56,7 @@ func c11(run *ev.Run) int {
 		}
 	}
 	scenarios := []string{"ok", "ok-zero", "err-early", "err-late"}
-	per := run.Pick(12, 400)
+	per := run.Pick(12, 2000)
 	parallel(16, len(cfgs), func(ci int) {
 		c := cfgs[ci]
 		cfg := fmt.Sprintf("h2=%v/%s/%s/%s", c.http2, c.proto, c.codec, c.kind)
